@@ -10,7 +10,7 @@ CONSTANTS
   ListenFam <- MCListenFam
   Strict = FALSE
   ReqFams = {0, 6}
-  ChanNums = {16384, 16385, 1}
+  ChanNums = {16384, 16385, 1, 49152}
   LifeReqs <- MCLifeAbsent0
   Txids = {"t1"}
   Pays = {"p"}
@@ -24,6 +24,7 @@ CONSTANTS
   Denied <- MCDenied
   Toks = {"none"}
   ResvTO = 30
+  QuotaDenied = {}
   MaxDepth = 6
 CONSTRAINT DepthBound
 INVARIANTS TypeOK C01_NeverInstalled NoOrphans C08_Bijection C08_Range C19_ReservedOnce
